@@ -59,8 +59,14 @@ class tar_syncer(http_syncer, base.ExternalSyncer):
         shutil.rmtree(self.tempdir_old, ignore_errors=True)
         # remove tempdirs on exit
         atexit.register(partial(shutil.rmtree, self.tempdir, ignore_errors=True))
-        atexit.register(partial(shutil.rmtree, self.tempdir_old, ignore_errors=True))
+        atexit.register(self._remove_old)
         return self.tarball.name
+
+    def _remove_old(self):
+        # while nothing sits at the repo's path the old tree is the only copy
+        # there is (the next sync puts it back), so it has to survive the exit
+        if os.path.exists(self.basedir):
+            shutil.rmtree(self.tempdir_old, ignore_errors=True)
 
     def _post_download(self, path):
         super()._post_download(path)
@@ -104,8 +110,11 @@ class tar_syncer(http_syncer, base.ExternalSyncer):
                 moved_aside = True
             # move new, unpacked repo into place
             os.rename(self.tempdir, self.basedir)
-        except OSError as e:
+        except BaseException as e:
+            # not just OSError: ctrl+c between the two renames unwinds through here too
             if moved_aside and not os.path.exists(self.basedir):
                 # don't leave the user without a repo
                 os.rename(self.tempdir_old, self.basedir)
-            raise base.SyncError(f"failed to update repo: {e.strerror}") from e
+            if isinstance(e, OSError):
+                raise base.SyncError(f"failed to update repo: {e.strerror}") from e
+            raise
